@@ -84,8 +84,17 @@ def dm_case(rng, m=None, n=None, family=None, positive=True, mix=None, ties=0.3,
     n = n or rng.randint(min_n, max_n)
     family = family or rng.choice(["dyadic", "dyadic", "float"])
     objs = objectives(rng, n, mix)
+    mat = matrix(rng, m, n, family, positive, ties, dups, dominated, objs)
+    int_matrix = False
+    if family == "dyadic" and rng.random() < 0.25:
+        # integer-typed decision matrix (unscaled raw data): every cell a whole number, dtype int64
+        mat = [[float(int(x * 8)) for x in row] for row in mat]
+        if positive:
+            mat = [[max(x, 1.0) for x in row] for row in mat]
+        int_matrix = True
     return {
-        "matrix": matrix(rng, m, n, family, positive, ties, dups, dominated, objs),
+        "matrix": mat,
+        "int_matrix": int_matrix,
         "objectives": objs,
         "weights": weights(rng, n, family),
         "alternatives": labels(rng, LABEL_POOL_ALT, m),
@@ -94,13 +103,18 @@ def dm_case(rng, m=None, n=None, family=None, positive=True, mix=None, ties=0.3,
     }
 
 
+def _whole(case):
+    """integer dtype only when asked for AND every cell really is a whole number (a check may have edited the cells)"""
+    return bool(case.get("int_matrix")) and all(float(x).is_integer() for row in case["matrix"] for x in row)
+
+
 def mkdm(case):
     import skcriteria as skc
 
     with warnings.catch_warnings():
         warnings.simplefilter("ignore")
         return skc.mkdm(
-            np.array(case["matrix"], dtype=float),
+            np.array(case["matrix"], dtype=int if _whole(case) else float),
             list(case["objectives"]),
             weights=np.array(case["weights"], dtype=float),
             alternatives=list(case["alternatives"]),
